@@ -832,7 +832,11 @@ def build14(m):
     m.add(Contract('re:ListItem.continuation_pattern.match', [('s', STR)], returns=TOpt(MCP), trusted=True, pure=True,
                    ensures=['is_none(result) == (not cp_matches(s))',
                             # group 2 runs from the first non-blank character to the end of the matched line
-                            'implies(not is_none(result), s.endswith(cp_group(some(result), 2)))'],
+                            'implies(not is_none(result), s.endswith(cp_group(some(result), 2)))',
+                            # on a line with a single, final newline the match covers the whole line:
+                            # group 1 (the blanks) followed by group 2
+                            "implies(not is_none(result) and not ('\\n' in s[:-1]), "
+                            's == cp_group(some(result), 1) + cp_group(some(result), 2))'],
                    note='A5 capture contract of ([ \\t]*)(\\S.*\\n|\\n): the pattern does NOT match every line '
                         '(a line that continues with non-ASCII whitespace after the blanks has no match)'))
     m.methods[('MatchCP', 'group')] = 're:MatchCP.group'
@@ -849,7 +853,11 @@ def build14(m):
                                    # C04: only the indentation is rewritten (tabs to columns, the item's offset removed);
                                    # the text of the line from its first non-blank character on is kept verbatim
                                    ("implies(not is_none(result), line.endswith(g_g2) and some(result).endswith(g_g2))", ['C04', 'C03']),
-                                   ("implies(not is_none(result), len(g_g2) >= 1)", ['C04', 'C03'])]
+                                   ("implies(not is_none(result), len(g_g2) >= 1)", ['C04', 'C03']),
+                                   # C04 (list-indenting wraps the parse): a non-blank, tab-free line indented by at least
+                                   # the item's content offset is handed on with exactly that offset removed
+                                   ("implies(not is_none(result) and not ('\\t' in line) and not ('\\n' in line[:-1]) and g_g2 != '\\n' "
+                                    "and prepend >= 0, some(result) == line[prepend:])", 'C04')]
     c.ghost_init = {'g_g2': (STR, "''")}
     c.ghost_after = {'match_obj = cls.continuation_pattern.match(line)': [
         ('g_g2', "cp_group(some(match_obj), 2) if not is_none(match_obj) else ''")]}
